@@ -283,6 +283,24 @@ def r3_taglang(cx):
     m = cx.repo.module("insights.core.taglang")
     d = _rule_defs(m)
     rules = set(["expr", "term", "factor", "factor_body", "tag", "regex", "bare", "parse"])
+    # view: auxiliary module-level names (a sub-expression given a name of its own, e.g. group = Char("(") >> expr << Char(")")) are expanded
+    # into the rules that use them; only the grammar's own non-terminals and imported names stay symbolic
+    from ..normal import _Subst
+    counts = {}
+    for st in m.tree.body:
+        for t_ in (st.targets if isinstance(st, ast.Assign) else []):
+            if isinstance(t_, ast.Name):
+                counts[t_.id] = counts.get(t_.id, 0) + 1
+    aux = dict((k, v) for k, v in d.items() if k not in rules and counts.get(k) == 1 and k not in ("WS", "quoted", "string") and isinstance(v, (ast.Call, ast.BinOp))
+               and not any(isinstance(x, ast.Name) and x.id == k for x in ast.walk(v)))
+    # only names that wrap operator / bracket terminals or group sub-expressions need expanding; keep the table small and acyclic
+    aux = dict((k, v) for k, v in aux.items() if _lits(v) & set("()!&,|") and len(U(v)) < 80)
+    if aux:
+        for k in list(d):
+            if k in aux:
+                continue
+            for _ in range(3):
+                d[k] = _Subst(aux).visit(ast.parse(U(d[k]), mode="eval")).body
     for r in ("expr", "term", "factor", "factor_body", "parse", "bare"):
         if r not in d:
             cx.bad(m.tree.body[0], "grammar rule '%s' exists" % r, construct="(missing %s)" % r)
